@@ -477,7 +477,13 @@ def run_seq(case):
                     viol.append({"sig": "C16/git-view/symrefs-differ-after-%s" % kind, "step": step, "git": repr(gs)[:200], "model": repr(ms)[:200]})
                 h = core.git(["symbolic-ref", "-q", "HEAD"], cwd=d, check=False)
                 mh = model.refs.get(b"HEAD", b"")
-                if mh.startswith(SYM):
+                looped = False
+                try:
+                    model.follow(b"HEAD")
+                except RecursionError:
+                    looped = True       # HEAD leads into a symref loop / over-long chain: what `git symbolic-ref` prints there is unspecified
+                    stats["git_head_symref_not_compared_loop"] = stats.get("git_head_symref_not_compared_loop", 0) + 1
+                if mh.startswith(SYM) and not looped:
                     # git 2.39 `symbolic-ref` resolves symref chains to the final ref name
                     if h.stdout.strip() != model.target(b"HEAD"):
                         viol.append({"sig": "C16/git-view/HEAD-symref-differs-after-%s" % kind, "step": step})
